@@ -607,7 +607,55 @@ def extra_C13(prog, impl, monline):
     return None
 
 
+def stage_C13(run):
+    """Runtime behaviours the functional model cannot exhibit: the harness is run under Miri
+    (undefined behaviour, invalid borrows of the unsafe Ident constructor, out-of-bounds) on a few small
+    programs, and its output must equal the native build's.  Leaks are ignored: the parent/children
+    Rc cycle of BlockState leaks by design."""
+    import json as _json
+    from verif import sh, CACHE, ROOT as VROOT
+    n = 150 if run.tier == "thorough" else 14
+    out_json = os.path.join(run.dir, "miri-%d.json" % n)
+    if os.path.exists(out_json):
+        saved = _json.load(open(out_json))
+    else:
+        idx = [i for i, p in enumerate(run.programs) if len(p) < 1800 and not run.impl[i].startswith("(missing")][:n]
+        inp, outp = os.path.join(run.dir, "miri.sexp"), os.path.join(run.dir, "miri.out")
+        with open(inp, "w") as f:
+            f.write("\n".join(run.programs[i] for i in idx) + "\n")
+        rc, log = sh("cd %s/harness && MIRIFLAGS='-Zmiri-disable-isolation -Zmiri-ignore-leaks' CARGO_TARGET_DIR=%s/miri-target "
+                     "timeout 2400 cargo +nightly miri run --offline -- run %s %s 2>&1 | tail -25" % (VROOT, CACHE, inp, outp), 2500)
+        try:
+            lines = open(outp).read().splitlines()
+        except OSError:
+            lines = []
+        available = "no such command" not in log and "is not installed" not in log and "error: toolchain" not in log
+        saved = {"idx": idx, "lines": lines, "log": log[-1500:], "available": available}
+        with open(out_json, "w") as f:
+            _json.dump(saved, f)
+    alarms = []
+    if not saved["available"]:
+        return [], [], "", {"miri": "not available in this sandbox"}
+    if "Undefined Behavior" in saved["log"] or "error: unsupported operation" in saved["log"]:
+        i = saved["idx"][min(len(saved["lines"]), len(saved["idx"]) - 1)] if saved["idx"] else 0
+        alarms.append((i, "C13: Miri reports undefined behaviour: " + saved["log"][-300:].replace("\n", " ")))
+    same = 0
+    for k, i in enumerate(saved["idx"]):
+        if k < len(saved["lines"]):
+            if saved["lines"][k] == run.impl[i]:
+                same += 1
+            elif not alarms:
+                from compare import same_output
+                if not same_output(saved["lines"][k], run.impl[i]) and not same_output(run.impl[i], saved["lines"][k]):
+                    alarms.append((i, "C13: output under Miri differs from the native build's"))
+    if not alarms and len(saved["lines"]) < len(saved["idx"]):
+        i = saved["idx"][len(saved["lines"])]
+        alarms.append((i, "C13: the harness stopped under Miri: " + saved["log"][-300:].replace("\n", " ")))
+    return alarms, [], "", {"miri_programs": len(saved["idx"]), "miri_outputs_equal_native": same}
+
+
 PENDING["C13"] = dict(
+    stage=stage_C13,
     title="Analysis is total: it terminates without panicking on every AST",
     projection="panic",
     monitors=[],
@@ -621,8 +669,9 @@ PENDING["C13"] = dict(
                "inside loops, numeric suffixes < 2^32, function size < 2^32) run returns ROk: the fuel of every loop suffices "
                "(pigeonhole for the two name probes, a potential argument for the priority folding), no modelled panic is "
                "reachable. PARTIAL by nature: RefCell borrow panics, native stack exhaustion and allocation failure are runtime "
-               "behaviours the functional model cannot exhibit; they are covered by running the implementation under "
-               "catch_unwind on the generated programs only.",
+               "behaviours the functional model cannot exhibit; they are covered by exploration only: the implementation runs under "
+               "catch_unwind (debug build, overflow checks) on every generated program incl. nesting 200 and 500-operator chains, "
+               "and under Miri (undefined behaviour, invalid use of the unsafe Ident constructor) on a sample.",
     assumptions=["runtime panics outside the functional model (borrow state, native stack, allocation) are explored, not proved"],
 )
 
